@@ -1455,7 +1455,16 @@ def rule_cache(repo):
     return r
 
 
-RULES = [rule_intlog, rule_litwidth, rule_idxwidth, rule_optable, rule_handlers, rule_mismatch, rule_widthtable, rule_cache, rule_sim_accepts]
+def rule_sim_helpers(repo):
+    """the width (and acceptance) the checker assigns to trunc / zext / sext / concat / reduce_* is compared with what the
+    simulator's helpers do; those helpers must themselves produce the advertised width and accept every in-range operand
+    (a trunc that raises for a wide operand is accepted statically and fails in simulation).  Shared with C05 (R-C05-helpers)."""
+    from rules.c05 import rule_helpers
+    return rule_helpers(repo)
+
+
+RULES = [rule_intlog, rule_litwidth, rule_idxwidth, rule_optable, rule_handlers, rule_mismatch, rule_widthtable, rule_cache, rule_sim_accepts,
+         rule_sim_helpers]
 
 
 # ---------------------------------------------------------------------------
